@@ -34,7 +34,7 @@ SHARDS = {"quick": 16, "thorough": 16}
 SOFT_LIMIT = {"quick": 200, "thorough": 1500}
 REQUIRED_FUNCS = ["sempler/utils.py:topological_ordering", "sempler/utils.py:is_dag",
                   "sempler/lganm.py:LGANM.__init__", "sempler/anm.py:ANM.__init__",
-                  "sempler/semi.py:BayesianNetwork.__init__"]
+                  "sempler/semi.py:DRFNet.__init__"]
 REQUIRED_COUNTERS = {"quick": {"oracle:cyclic": 100, "oracle:acyclic": 100, "ctor:LGANM": 50, "ctor:ANM": 50, "ctor:DRFNet": 20},
                      "thorough": {"oracle:cyclic": 1000, "oracle:acyclic": 1000, "ctor:LGANM": 500, "ctor:ANM": 500, "ctor:DRFNet": 100}}
 
